@@ -53,7 +53,7 @@ CHECKS = {
              "source that records each request and can be scripted. For every produced value (random bytes/strings, salts of 15 hashers x "
              "admissible sizes read back by the independent extractor, salts of the other 33 registered handlers that draw one (read back "
              "through the handler's own parser; cisco_type7's integer salt as a 16-value space), TOTP keys, application secrets, generated words/phrases, django_disabled "
-             "suffixes, libpass salts, salts of passlib.ext.django's hasher adapter after a call with an explicit salt, salts of an application handler on passlib's framework whose generation alphabet is narrower than the accepted one) the run sees draws and value side by side: size and alphabet; the draws must be able to cover the declared "
+             "suffixes, libpass salts, salts of passlib.ext.django's hasher adapter after a call with an explicit salt, salts of an application handler on passlib's framework whose generation alphabet is narrower than the accepted one, byte draws and salts beyond one 64-byte block (65-1024 bytes), new TOTP keys of the default size on a factory that has loaded keys of another algorithm) the run sees draws and value side by side: size and alphabet; the draws must be able to cover the declared "
              "space; when draw space and value space have the same size, uniformity is equivalent to injectivity, which is checked over the "
              "sample and by flipping single bits of a recorded answer and replaying (the value must change); for spaces <= 2^16 ALL "
              "answers of the source are enumerated and every declared value must be produced equally often (exhaustive sub-case, also when "
@@ -120,7 +120,7 @@ CHECKS = {
              "same clock, and all key spellings; histories include key rotation on a live object (TOTP.key assigned after the object has "
              "generated and been serialised: its codes must follow the new secret); in 7% of the runs 2-3 caller threads (own or one shared TOTP object) generate, match and verify at once under the baton scheduler of C19 (pre-emption at every source line): the module keeps no per-call state, every code is still the RFC's. Weaker fit: the truth of C13 does not depend on a schedule; the simulator only owns the "
              "clock seam. Evidence over sampled histories, not proof.",
-        note="Trusted: the ~10-line reference HOTP (stdlib hmac+struct). Keys 1-64 bytes, sha1/256/512 (15% of accounts: sha224/384, sha3_224/256/512, blake2b/s), digits 6-10, periods 1-3600, times < 2^40 and, in 4% of runs, 2^56..2^60.",
+        note="Trusted: the ~10-line reference HOTP (stdlib hmac+struct). Keys 1-64 bytes, sha1/256/512 (15% of accounts: sha224/384, sha3_224/256/512, blake2b/s), digits 6-10, periods 1-3600, times < 2^40 and, in 4% of runs, 2^56..2^60; key text decorated with ASCII or Unicode blanks, dashes, padding, lower case.",
         design_ref="DESIGN.md section 4, C13"),
     "C14": dict(
         level="exploration",
@@ -135,14 +135,14 @@ CHECKS = {
              "code, moves the clock into the later one's period, submits and replays it (earliest-first clause); 'sweep' enumerates a small "
              "box exhaustively (periods 1-5 x windows 0-7 x skews -2..2 x last-counter offsets x every time in a range x 7 neighbouring "
              "codes). Submitted codes come as text, bytes, ints, with ASCII blanks/dashes or Unicode blanks; 4% of the runs have clocks set absurdly wrong (2^56..2^60 s). One seed = one replayable history; failures are minimised to a replay file.",
-        note="Trusted: reference HOTP and the 25-line reference matcher. Bounds: <=3 accounts, <=120 ops/run, periods 1-3600, windows 0-900, tokens as digit strings/bytes/non-negative ints.",
+        note="Trusted: reference HOTP and the 25-line reference matcher. Bounds: <=3 accounts, <=120 ops/run, periods 1-3600, windows 0-900 (2% of runs: one submission under a window of 40000-70000 periods), tokens as digit strings/bytes/non-negative ints.",
         design_ref="DESIGN.md section 4, C14"),
     "C15": dict(
         level="exploration",
         technique="deterministic simulation: provisioning messages and durable records are the serialised forms; restarts and hostile/corrupted sources are injected faults; field-by-field and token oracle",
         text="In the totp world every provisioning (URI/JSON/dict through a stock or the same using()-factory, the generic or the format's own loader, to_uri with explicit label/issuer; a LIVE object handed to from_source() of a factory with another wallet and its own / the library's / different class defaults) and every server restart from "
              "its durable record is a serialisation round trip, checked field by field and by codes at three probe times against the reference; "
-             "22 kinds of inconsistent/incomplete/truncated sources (conflicting issuers also when they merely look alike: case, folded accents, blanks) must raise ValueError; after a key rotation on the live server object its "
+             "22 kinds of inconsistent/incomplete/truncated sources (conflicting issuers also when they merely look alike: case, folded accents, blanks; secrets that are empty or separators only; a parameter repeated with a blank value) must raise ValueError; a quarter of the loads read the same text a second time after the first loaded object was re-keyed and relabelled; after a key rotation on the live server object its "
              "devices are re-provisioned from its serialised form. Weaker fit: round-tripping is a pure function; the "
              "simulator supplies the histories (restart, reprovision, re-key) and hostile labels/issuers/class defaults.",
         note="AppWallet encryption cannot run (no 'cryptography' package on this image) and is not claimed. Labels/issuers without ':' and without leading/trailing blanks.",
@@ -170,7 +170,7 @@ CHECKS = {
              "Django-style unusable password) evolve under disable (with/without the current hash), disable again, enable, logins with the "
              "right / wrong / empty password and with the record text itself, is_enabled, with unix_disabled (markers '!'/'*', configured "
              "or default) or django_disabled at a random list position (optionally with the other disabled-account handler behind it, and with plaintext / "
-             "ldap_plaintext listed last, which also claims marker-prefixed text); records are handed over as text or bytes (a normal hash must come back as the very value given), with policy updates and restarts in between, and with 'neighbour' contexts / using() variants that carry another marker created mid-history (each keeps its own). A reference grammar decides every answer; which scheme "
+             "ldap_plaintext listed last, which also claims marker-prefixed text); records are handed over as text or bytes (a normal hash must come back as the very value given), with policy updates and restarts in between, and with 'neighbour' contexts / using() variants that carry another marker created mid-history (each keeps its own); a third of the contexts have user categories with their own overrides and the verifying calls carry category=; the longest possible record (plaintext of a 4096-character password) is among the user shapes; verification against None is also asked of a sibling context whose truncating default scheme refuses over-long passwords. A reference grammar decides every answer; which scheme "
              "owns a record is computed without the context (first configured scheme whose own identify() claims it) and the context's "
              "identify() is judged against it; 'verification against None costs a dummy verification' is observed deterministically as digest "
              "computations of the default scheme counted through a counting subclass given in schemes= (one per call, one more right after "
@@ -187,7 +187,7 @@ CHECKS = {
              "caches, the digest-info cache, passlib.pwd's word sets, a libpass context, an application's own handler module registered by path "
              "together with a lazy PrefixWrapper around one of its handlers) or an initialised shared context with a "
              "non-reentrant crypt(3) model, and lets 2-3 real "
-             "threads make their first calls (for the registry also: sibling names hosted by one not-yet-imported module, first "
+             "threads make their first calls (on lazy contexts also: a copy taken by copy.copy / deepcopy / .copy() and then used; for the registry also: sibling names hosted by one not-yet-imported module, first "
              "verify through a freshly imported handler, and enumeration of a pre-populated registry while other threads load entries) while a seeded scheduler decides at every source line of /repo code who runs next. Every "
              "lock object the library keeps is replaced by a cooperative lock with the same semantics, so parked threads never block "
              "the simulator and deadlocks are detected; in a share of the runs importlib's per-module import locks wait cooperatively "
